@@ -24,6 +24,11 @@
 #include <math.h>
 #include <unistd.h>
 #include <fcntl.h>
+#include <signal.h>
+#include <sys/resource.h>
+
+static char hostile_desc[230];   /* sticky: every later context line of the case names the hostile file it may be working on */
+#define CTX(...) do { char t_[300]; snprintf(t_, sizeof(t_), __VA_ARGS__); if (hostile_desc[0]) (v_ctx)("%s ; %s", hostile_desc, t_); else (v_ctx)("%s", t_); } while (0)
 
 #if defined(__SANITIZE_ADDRESS__)
 int __lsan_do_recoverable_leak_check(void);
@@ -146,7 +151,7 @@ static void writer_phase(rng_t *r, const char *path, int threaded, int big) {
             d.sample_id_offset = pick_i64(r, 0);
             char *nm = pick_string(r, 0), *un = pick_string(r, 0);
             d.name = nm; d.units = un;
-            v_ctx("signal_def id=%u src=%u type=%u dt=0x%x spd=%u sdf=%u eps=%u sumdf=%u adf=%u udf=%u", d.signal_id, d.source_id, d.signal_type, d.data_type, d.samples_per_data, d.sample_decimate_factor,
+            CTX("signal_def id=%u src=%u type=%u dt=0x%x spd=%u sdf=%u eps=%u sumdf=%u adf=%u udf=%u", d.signal_id, d.source_id, d.signal_type, d.data_type, d.samples_per_data, d.sample_decimate_factor,
                   d.entries_per_summary, d.summary_decimate_factor, d.annotation_decimate_factor, d.utc_decimate_factor);
             rc = threaded ? CALL("jls_twr_signal_def", jls_twr_signal_def(tw, &d)) : CALL("jls_wr_signal_def", jls_wr_signal_def(wr, &d));
             if (!rc && nsig < 16 && d.signal_id < 256) { sigs[nsig++] = d.signal_id; sig_types[d.signal_id] = d.signal_type == JLS_SIGNAL_TYPE_FSR ? d.data_type : 0xffffffffu; }
@@ -162,7 +167,7 @@ static void writer_phase(rng_t *r, const char *path, int threaded, int big) {
             int64_t sid = rng_chance(r, 3, 4) ? (int64_t) q * 300 : pick_i64(r, q * 300);
             /* a forward jump makes the writer store that many fill samples: keep the gap bounded (1M samples), the call is legitimate however long it takes */
             if (sid > (int64_t) q * 300 + (1 << 20) || sid < -(1LL << 50)) sid = rng_range(r, -100000, 100000);
-            v_ctx("fsr id=%u sid=%lld n=%u bits=%d", id, (long long) sid, n, bits);
+            CTX("fsr id=%u sid=%lld n=%u bits=%d", id, (long long) sid, n, bits);
             if (threaded && t && rng_chance(r, 1, 30)) {
                 /* a very large length: 2^32 bits of samples and a little more, from a buffer that really is that large (untouched zero pages) */
                 uint64_t hn = ((1ULL << 32) + (uint64_t) rng_below(r, 3) * 64 * 8) / (uint64_t) t->bits + (uint64_t) rng_below(r, 2);
@@ -170,7 +175,7 @@ static void writer_phase(rng_t *r, const char *path, int threaded, int big) {
                     size_t hb = (size_t) ((hn * (uint64_t) t->bits + 7) / 8);
                     void *huge = mmap(NULL, hb, PROT_READ, MAP_PRIVATE | MAP_ANONYMOUS | MAP_NORESERVE, -1, 0);
                     if (huge != MAP_FAILED) {
-                        v_ctx("huge fsr id=%u n=%llu bits=%d", id, (unsigned long long) hn, t->bits);
+                        CTX("huge fsr id=%u n=%llu bits=%d", id, (unsigned long long) hn, t->bits);
                         CALL("jls_twr_fsr", jls_twr_fsr(tw, id, sid, huge, (uint32_t) hn));
                         /* the writer thread may still hold the message: let it finish before the buffer goes away */
                         CALL("jls_twr_flush", jls_twr_flush(tw));
@@ -268,7 +273,7 @@ static void reader_phase(rng_t *r, const char *path) {
                 if (sized > (1 << 24)) sized = 4;
                 size_t nb = bits >= 8 ? (size_t) sized * (size_t) (bits / 8) : (size_t) (1 + (sized * bits) / 8);
                 uint8_t *buf = malloc(nb ? nb : 1);
-                v_ctx("rd_fsr id=%u start=%lld cnt=%lld len=%lld bits=%d absurd=%d", id, (long long) start, (long long) cnt, (long long) len, bits, absurd);
+                CTX("rd_fsr id=%u start=%lld cnt=%lld len=%lld bits=%d absurd=%d", id, (long long) start, (long long) cnt, (long long) len, bits, absurd);
                 if (kind == 3 && (!have || defs[id].data_type == JLS_DATATYPE_F32)) CALL("jls_rd_fsr_f32", jls_rd_fsr_f32(rd, id, start, (float *) buf, cnt));
                 else if (kind == 3) CALL("jls_rd_fsr_f32", jls_rd_fsr_f32(rd, id, start, (float *) buf, 0 * cnt + (absurd ? cnt : 1)));   /* wrong type: must be rejected before touching the buffer */
                 else CALL("jls_rd_fsr", jls_rd_fsr(rd, id, start, buf, cnt));
@@ -283,7 +288,7 @@ static void reader_phase(rng_t *r, const char *path) {
                 int absurd = !have || start < 0 || incr <= 0 || cnt <= 0 || cnt > 100000 || incr > len || start > len || cnt > (len - start) / (incr > 0 ? incr : 1);
                 if (absurd || sized < 0) sized = 1;
                 double *out = malloc((size_t) sized * 4 * sizeof(double));
-                v_ctx("rd_stats id=%u start=%lld incr=%lld cnt=%lld len=%lld absurd=%d", id, (long long) start, (long long) incr, (long long) cnt, (long long) len, absurd);
+                CTX("rd_stats id=%u start=%lld incr=%lld cnt=%lld len=%lld absurd=%d", id, (long long) start, (long long) incr, (long long) cnt, (long long) len, absurd);
                 CALL("jls_rd_fsr_statistics", jls_rd_fsr_statistics(rd, id, start, incr, out, cnt));
                 free(out);
                 break;
@@ -324,6 +329,82 @@ static void make_bad_file(rng_t *r, const char *path, const char *good) {
     close(fd);
 }
 
+/* A hostile file that is consistent as far as the CRCs go - what a caller of the raw API (which computes the CRCs itself)
+ * can write: a copy of the good file in which a few header fields (links, tag, chunk_meta, previous length) and payload
+ * fields (entry counts, offsets, timestamps, sizes) are replaced and the header / payload CRC recomputed.  Nothing the
+ * reader, the repair or the copy does with such a file may crash, hang or touch memory outside its allocations; what
+ * they return is not judged here. */
+static uint32_t rd_u32(const uint8_t *p) { return (uint32_t) p[0] | ((uint32_t) p[1] << 8) | ((uint32_t) p[2] << 16) | ((uint32_t) p[3] << 24); }
+static void wr_u32(uint8_t *p, uint32_t v) { p[0] = (uint8_t) v; p[1] = (uint8_t) (v >> 8); p[2] = (uint8_t) (v >> 16); p[3] = (uint8_t) (v >> 24); }
+static void wr_u64(uint8_t *p, uint64_t v) { wr_u32(p, (uint32_t) v); wr_u32(p + 4, (uint32_t) (v >> 32)); }
+static uint32_t disk_size(uint32_t n) { if (!n) return 0; uint32_t pad = (n + 4) & 7; if (pad) pad = 8 - pad; return n + pad + 4; }
+
+static int make_hostile_file(rng_t *r, const char *path, const char *good) {
+    int g = open(good, O_RDONLY);
+    if (g < 0) return 0;
+    size_t cap = 1 << 22;
+    uint8_t *b = malloc(cap); ssize_t n = read(g, b, cap); close(g);
+    if (n < 64 || (size_t) n >= cap) { free(b); return 0; }
+    enum { MAXC = 4096 };
+    uint64_t *offs = malloc(sizeof(uint64_t) * MAXC); int nc = 0;
+    for (uint64_t o = 32; o + 32 <= (uint64_t) n && nc < MAXC; ) {
+        struct jls_chunk_header_s h; memcpy(&h, b + o, 32);
+        if (jls_crc32c_hdr(&h) != h.crc32) break;
+        offs[nc++] = o;
+        o += 32 + disk_size(h.payload_length);
+    }
+    if (nc < 2) { free(b); free(offs); return 0; }
+    int edits = (int) rng_range(r, 1, 3), done = 0;
+    char what[200]; what[0] = 0;
+    for (int e = 0; e < edits; ++e) {
+        uint64_t o = offs[rng_below(r, (uint64_t) nc)];
+        uint8_t *hp = b + o;
+        uint32_t plen = rd_u32(hp + 20);
+        uint64_t other = offs[rng_below(r, (uint64_t) nc)];
+        uint64_t vals[] = {0, 1, 2, 7, 8, 0xFF, 0x100, 0xFFFF, 0x10000, 0x7FFFFFFFu, 0x80000000u, 0xFFFFFFFFu, 0x7FFFFFFFFFFFFFFFull, 0x8000000000000000ull,
+                           0xFFFFFFFFFFFFFFFFull, (uint64_t) n, (uint64_t) n - 8, other, other + 8, o, rng_u64(r), rng_below(r, 5000)};
+        uint64_t v = vals[rng_below(r, sizeof(vals) / sizeof(vals[0]))];
+        int in_payload = plen >= 4 && o + 32 + disk_size(plen) <= (uint64_t) n && rng_chance(r, 2, 3);
+        if (in_payload) {
+            /* a 1-, 2-, 4- or 8-byte field; the leading fields of a payload (the chunk-specific headers) most of the time */
+            uint32_t w = 1u << rng_below(r, 4); if (w > plen) w = 4;
+            uint32_t span = rng_chance(r, 3, 4) && plen > 64 ? 64 : plen;
+            uint32_t at = (uint32_t) rng_below(r, span - w + 1); if (rng_chance(r, 3, 4)) at &= ~(w - 1);
+            uint8_t *pp = hp + 32;
+            if (rng_chance(r, 1, 4)) { uint64_t cur = 0; memcpy(&cur, pp + at, w); v = cur + (rng_chance(r, 1, 2) ? 1 : (uint64_t) -1); }
+            memcpy(pp + at, &v, w);
+            uint32_t pad = (plen + 4) & 7; if (pad) pad = 8 - pad;
+            wr_u32(pp + plen + pad, jls_crc32c(pp, plen));
+            snprintf(what + strlen(what), sizeof(what) - strlen(what), " tag%u@%llu.payload[%u:%u]=%llx", hp[16], (unsigned long long) o, at, w, (unsigned long long) v);
+        } else {
+            switch (rng_below(r, 6)) {
+                case 0: wr_u64(hp + 0, v); break;                          /* item_next */
+                case 1: wr_u64(hp + 8, v); break;                          /* item_prev */
+                case 2: hp[16] = rng_chance(r, 1, 2) ? b[other + 16] : (uint8_t) v; break;     /* tag */
+                case 3: hp[18] = (uint8_t) v; hp[19] = (uint8_t) (v >> 8); break;               /* chunk_meta */
+                case 4: wr_u32(hp + 24, (uint32_t) v); break;              /* payload_prev_length */
+                default: hp[17] = (uint8_t) v; break;                      /* reserved */
+            }
+            struct jls_chunk_header_s h; memcpy(&h, hp, 32);
+            wr_u32(hp + 28, jls_crc32c_hdr(&h));
+            snprintf(what + strlen(what), sizeof(what) - strlen(what), " tag%u@%llu.header=%llx", hp[16], (unsigned long long) o, (unsigned long long) v);
+        }
+        done++;
+    }
+    size_t keep = (size_t) n;
+    if (rng_chance(r, 1, 4)) { /* and unclosed: cut at a chunk boundary so that the repair runs over it */
+        keep = (size_t) offs[rng_range(r, nc / 2, nc - 1)];
+        snprintf(what + strlen(what), sizeof(what) - strlen(what), " cut@%zu", keep);
+    }
+    snprintf(hostile_desc, sizeof(hostile_desc), "hostile file (CRC-consistent):%s", what);
+    v_ctx("%s", hostile_desc);
+    int fd = open(path, O_WRONLY | O_CREAT | O_TRUNC, 0600);
+    if (fd >= 0) { if (write(fd, b, keep) < 0) {} close(fd); }
+    free(b); free(offs);
+    v_count("C10", "hostile_crc_consistent_files", 1);
+    return done;
+}
+
 static void raw_phase(rng_t *r, const char *path) {
     struct jls_raw_s *raw = NULL;
     static const char *modes[] = {"r", "r", "a", "x", ""};
@@ -347,7 +428,7 @@ static void raw_phase(rng_t *r, const char *path) {
                 if (rng_chance(r, 1, 3)) CALL("jls_raw_wr", jls_raw_wr(raw, &w, b));
                 else {
                     uint32_t larg = rng_chance(r, 1, 2) ? w.payload_length : RNG_PICK(r, ls);
-                    v_ctx("raw wr_header len=%u then wr_payload arg=%u", w.payload_length, larg);
+                    CTX("raw wr_header len=%u then wr_payload arg=%u", w.payload_length, larg);
                     if (!CALL("jls_raw_wr_header", jls_raw_wr_header(raw, &w))) CALL("jls_raw_wr_payload", jls_raw_wr_payload(raw, larg, b));
                 }
                 free(b);
@@ -427,7 +508,7 @@ static void long_window_phase(rng_t *r, const char *path) {
         if (incr < 1 || incr * cnt > len) continue;
         int64_t start = rng_range(r, 0, len - incr * cnt);
         double *out = malloc((size_t) cnt * 4 * sizeof(double));   /* exactly as documented */
-        v_ctx("long-window statistics start=%lld incr=%lld cnt=%lld len=%lld sdf=%u", (long long) start, (long long) incr, (long long) cnt, (long long) len, d.sample_decimate_factor);
+        CTX("long-window statistics start=%lld incr=%lld cnt=%lld len=%lld sdf=%u", (long long) start, (long long) incr, (long long) cnt, (long long) len, d.sample_decimate_factor);
         CALL("jls_rd_fsr_statistics", jls_rd_fsr_statistics(rd, 1, start, incr, out, cnt));
         free(out);
     }
@@ -439,6 +520,9 @@ static void run_case(uint64_t idx, void *vctx) {
     rng_t r; rng_seed(&r, vmix(g_seed, idx ^ 0xC10));
     jls_quiet();
     memset(sig_types, 0, sizeof(sig_types));
+    hostile_desc[0] = 0;
+    /* a hostile file may announce a gap of 2^56 samples, which jls_copy fills faithfully: bound what one case can write */
+    { struct rlimit fl = { (rlim_t) 1 << 30, (rlim_t) 1 << 30 }; setrlimit(RLIMIT_FSIZE, &fl); signal(SIGXFSZ, SIG_IGN); }
     const char *good = v_path("api.jls"), *bad = v_path("api-bad.jls"), *cp = v_path("api-copy.jls");
     unlink(good); unlink(bad); unlink(cp);
     int threaded = rng_chance(&r, 1, 4);
@@ -449,7 +533,10 @@ static void run_case(uint64_t idx, void *vctx) {
     for (int ph = 0; ph < phases; ++ph) {
         switch (rng_below(&r, 6)) {
             case 0: case 1: reader_phase(&r, good); break;
-            case 2: make_bad_file(&r, bad, good); reader_phase(&r, bad); break;
+            case 2:
+                if (rng_chance(&r, 1, 2)) { make_bad_file(&r, bad, good); hostile_desc[0] = 0; v_ctx("%s", ""); }
+                else { make_hostile_file(&r, bad, good); if (rng_chance(&r, 1, 3)) CALL("jls_copy", jls_copy(bad, cp, NULL, NULL, NULL, NULL)); }
+                reader_phase(&r, bad); break;
             case 3: CALL("jls_copy", jls_copy(rng_chance(&r, 1, 4) ? bad : good, cp, NULL, NULL, NULL, NULL)); if (rng_chance(&r, 1, 2)) reader_phase(&r, cp); break;
             case 4: raw_phase(&r, rng_chance(&r, 1, 3) ? bad : good); break;
             default: misc_phase(&r); break;
